@@ -618,6 +618,13 @@ void csr_matmat_pass2(const CSRMatrix &A, const CSRMatrix &B, CSRMatrix &C)
 
         C.p_[i + 1] = nnz;
     }
+
+    // Zero sums are dropped, so fewer entries than counted by pass 1 may have
+    // been written; rows are emitted in linked-list order: trim and sort to
+    // return a matrix in canonical format.
+    C.j_.resize(nnz);
+    C.x_.resize(nnz);
+    CSRMatrix::csr_sort_indices(C.p_, C.j_, C.x_, A.row_);
 }
 
 // Extract main diagonal of CSR matrix A
